@@ -186,6 +186,19 @@ def go_leaves(t, path: str, out: List[Tuple[str, Any]]) -> None:
     out.append((path, t))
 
 
+def expected_utype(t) -> str:
+    """the unsigned C type the big-endian items must cast the field to (storage width)"""
+    if isinstance(t, G.TBool):
+        return "uint8_t"
+    if isinstance(t, G.TByte):
+        return "unsigned char"
+    if isinstance(t, (G.TUint, G.TInt)):
+        return f"uint{8 * props_c.storage_size(t.n)}_t"
+    if isinstance(t, G.TRef) and isinstance(t.d, G.EnumDef):
+        return f"uint{8 * props_c.storage_size(t.d.nbits)}_t"
+    return "?"
+
+
 def compare_with_plan(run: common.Run, rep: Dict[str, Any], groups, bad, plan, leaves, dialect: str, direction: str) -> bool:
     """parsed statements vs the Lean plan; returns True if identical"""
     if bad:
@@ -209,6 +222,9 @@ def compare_with_plan(run: common.Run, rep: Dict[str, Any], groups, bad, plan, l
         for it, pl in zip(items, lf["items"]):
             exp_assign = {("cLE", "enc"): pl["r"] == 0, ("cBE", "enc"): pl["r"] == 0, ("cLE", "dec"): pl["r"] == 0,
                           ("cBE", "dec"): False, ("go", "enc"): False, ("go", "dec"): isinstance(t, G.TBool)}[(dialect, direction)]
+            if "utype" in it and it["utype"] != expected_utype(t):
+                problems.append(f"{chain}: cast to {it['utype']}, expected {expected_utype(t)}")
+                break
             if "total_shift" in it:
                 ok = it["si"] == pl["si"] and it["total_shift"] == 8 * pl["fi"] + pl["shift"] and it["mask"] == pl["mask"]
             else:
@@ -259,6 +275,7 @@ def check_opmode(run: common.Run, drv: common.Driver, rng: random.Random, sc: R.
             run.violation({"kind": "compile-failed", "input": {"files": {"main.bitproto": text}}, "observed_impl": f"{type(e).__name__}: {e}"})
             continue
         msgs = s.messages()
+        before = len(run.notes.get("plan_mismatches", [])) + len(run.notes.get("model_disagreements", []))
         if parse:
             plans = drv.batch([{"op": "op.plan", "ty": G.msg_ty_json(m), "enc": e} for m in msgs for e in (True, False)])
             for j, m in enumerate(msgs):
@@ -286,10 +303,13 @@ def check_opmode(run: common.Run, drv: common.Driver, rng: random.Random, sc: R.
                     for (dialect, lines, lv) in checks:
                         groups, bad = parse_items(lines, dialect, direction)
                         compare_with_plan(run, rep, groups, bad, plan, lv, dialect, direction)
-        # execute the C variants
+        # execute the C variants (a program that left the plan gets a focused search: more values, all configs)
+        focused = len(run.notes.get("plan_mismatches", [])) + len(run.notes.get("model_disagreements", [])) > before
+        if focused:
+            exec_configs = EXEC_ALL
         jobs = []
         for m in msgs:
-            for _ in range(n_values):
+            for _ in range(60 if focused else n_values):
                 v = G.rand_msg_value(rng, m)
                 if overdriven:
                     v = props_c.overdrive(rng, G.TRef(m), v)
